@@ -6,10 +6,13 @@ Functions under contract (real source):
                         that row's cell (all four condition kinds); the empty-result tail rebuilds the table with self.keys()
   and_                  the closure returns the conjunction (min of booleans) of _row_check over the filters
   dictable.exc          the mask handed to row selection is the negation of that conjunction, row by row
-Callee contract (assumed here, checked by the bounded stand-ins of C01/C06): `table[list of booleans]` keeps exactly the rows whose mask
-entry is true, in order, with all columns (MASK below).  From "each step filters by _row_check" and MASK the statement's conclusions follow
-by induction over the filters (rows kept by inc = rows satisfying every condition, in order; exc keeps the complement; partition;
-idempotence because a second pass filters by predicates that already hold).  That induction is an argument, not a solver step.
+Callee contract MASK (proved on the real body of dictable.__getitem__, contracts/C01.py mask_obligations; its obligations are generated again here as
+C06.__getitem__.mask.*): `table[list of booleans, one per row]` keeps all columns and exactly the rows whose entry is true - the row of true entry i at
+position count_true(mask, i), count_true(mask, len) rows in all; the laws of count_true (ranks strictly increase over true entries, every position below the
+count is a rank) are induction lemmas.  Each inc step is composed with it by the solver: the table after the step keeps all columns, is rectangular with one
+row per passing cell, and holds every row whose cell passes the statement's reading of the condition at its rank.  From "each step filters by _row_check"
+the statement's conclusions over *several* filters follow by induction over the filters (rows kept by inc = rows satisfying every condition, in order; exc
+keeps the complement; partition; idempotence because a second pass filters by predicates that already hold).  That induction is an argument, not a solver step.
 Bounded only: callable predicates (kwargs_support), dict-valued positional filters, find_<col>, one_or_none.
 """
 import ast
@@ -22,6 +25,8 @@ from pyvc.theories import TypePreds
 from pyvc.th_lists import Lists, Val, NONEV, VAL, INT, fresh_list, V, as_list_sv, at
 from pyvc.th_tables import Tables, Key, KEY, fresh_table, wf, no_columns, nrows, column, key_of
 from pyvc.sv import SV, I, B, S, T, NONE, fresh_name, fresh_int
+from pyvc.th_tables2 import CNT, mask_contract
+from contracts.C01 import mask_obligations
 
 PROP = 'C06'
 
@@ -30,6 +35,7 @@ STRP = Function('is_str', Val, BoolSort())
 PATP = Function('is_Pattern', Val, BoolSort())
 SEARCH = Function('search_hits', Val, Val, BoolSort())     # value.search(cell) is not None
 INL = Function('in_as_list', Val, Val, BoolSort())         # cell in as_list(value)
+EQP = Function('eq_cells', Val, Val, BoolSort())           # cell == value
 
 
 class Cells:
@@ -54,6 +60,15 @@ class Cells:
             if elt.kind != 'bool':
                 raise OutOfSubset('min over non-boolean comprehension')
             return B(ForAll([q], Implies(And(0 <= q, q < lst.n), elt.t)))
+        if fname == 'max' and len(args) == 1 and args[0].kind == 'lazylist':
+            ex.use('axiom:max(list of booleans) is True iff one is True; max([]) raises ValueError')
+            lst = args[0]
+            ex.raise_if(st, lst.n == 0, 'ValueError')
+            q = Int(fresh_name('q!max'))
+            elt = lst.at(st.fork(), q)
+            if elt.kind != 'bool':
+                raise OutOfSubset('max over non-boolean comprehension')
+            return B(Exists([q], And(0 <= q, q < lst.n, elt.t)))
         return NotImplemented
 
     def pre_call(self, ex, st, e):
@@ -77,6 +92,10 @@ class Cells:
         if op in ('In', 'NotIn') and b.kind == 'aslist' and a.kind == 'val':
             r = INL(a.t, b.f['of'])
             return r if op == 'In' else Not(r)
+        if op in ('Eq', 'NotEq') and a.kind == 'val' and b.kind == 'val':
+            ex.use('model:== on opaque cells is an uninterpreted predicate')
+            r = EQP(a.t, b.t)
+            return r if op == 'Eq' else Not(r)
         return NotImplemented
 
     def subscript(self, ex, st, e, recv, idx):
@@ -87,11 +106,26 @@ class Cells:
             ex.raise_if(st, Not(recv.dom[idx.t]), 'KeyError')
             return column(recv, idx.t)
         if recv.kind == 'table' and idx.kind == 'lazylist':
-            # MASK: callee contract of dictable.__getitem__(list of booleans)
-            ex.use('assumed contract:table[list of booleans] keeps exactly the rows whose entry is true, in order, with all columns (C01, bounded-checked)')
+            # MASK: callee contract of dictable.__getitem__(list of booleans), proved on the real body in contracts/C01.py (mask_obligations; the
+            # obligations are generated again in this property, section __getitem__.mask)
+            ex.use('callee contract:table[list of booleans, one per row] keeps all columns and exactly the rows whose entry is true, the row of true entry i at '
+                   'position count_true(mask, i) (proved: __getitem__.mask.*, contracts/C01.py)')
+            n = st.ghost.get('nrows')
+            if n is None:
+                raise OutOfSubset('row count of the masked table is not known')
             out = fresh_table('masked')
+            marr = z3.Array(fresh_name('mask'), IntSort(), IntSort())
+            j = Int(fresh_name('j!mk'))
+            s2 = st.fork()
+            entry = idx.at(s2, j)
+            ex.oblige(st, 'call.__getitem__.mask.pre.one_entry_per_row', idx.n == nrows(recv, n), kind='pre')
+            ex.fact(ForAll([j], Implies(And(0 <= j, j < idx.n), (marr[j] != 0) == entry.t)))
+            for f in mask_contract(recv, n, marr, out):
+                ex.fact(f)
             st.ghost['mask'] = idx
             st.ghost['mask_source'] = recv
+            st.ghost['mask_array'] = marr
+            st.ghost['masked'] = out
             return out
         return NotImplemented
 
@@ -158,6 +192,7 @@ def build(ctx):
         ex = Exec(m, th(), inline=inline, name='inc.step')
         st = State(env={'res': res, 'key': KEY(KEYc), 'value': V(cond), 'self': fresh_table('self')})
         st.pc += [wf(res, n), res.dom[KEYc]]
+        st.ghost['nrows'] = n
         outs = ex.run_block(st, loop.body)
         ctx.absorb(ex)
         ctx.record_function(m, 'dictable.inc', fdef, ex.stmts_executed,
@@ -183,6 +218,21 @@ def build(ctx):
             ctx.post('inc.step.mask_entry_is_row_check_of_that_cell', hy + s2.pc + ex_rc.facts + s3.pc + [0 <= j, j < n], got.t == want.t)
             ctx.post('inc.step.mask_has_one_entry_per_row', hy, mask.n == n)
             ctx.post('inc.step.filters_the_current_result', hy, BoolVal(src is res))
+            # composition with the proved MASK contract: the table after this step has all columns and holds, at its rank, every row whose cell
+            # satisfies the condition as the statement reads it (spec_check) - and has exactly as many rows as there are such cells
+            marr, masked = out.st.ghost['mask_array'], out.st.env['res']
+            i_ = Int('I!step')
+            c_ = Const('C!step', Key)
+            passes = lambda x: spec_check(res.carr[KEYc][x], cond)
+            ex_rc2 = Exec(m, th(), inline=inline, name='inc.step.rc2')
+            s4 = State()
+            want_i = row_check_of(ex_rc2, s4, res.carr[KEYc][i_], cond)
+            inst = [Implies(And(0 <= i_, i_ < n), (marr[i_] != 0) == mask.at(out.st.fork(), i_).t), want_i.t == passes(i_)]     # instances at the witness row
+            ctx.post('inc.step.result_keeps_all_columns', hy, ForAll([c_], masked.dom[c_] == res.dom[c_]))
+            ctx.post('inc.step.result_is_rectangular_with_one_row_per_passing_cell', hy, wf(masked, CNT(marr, n)))
+            ctx.post('inc.step.a_row_whose_cell_passes_the_condition_is_kept_at_its_rank', hy + ex_rc2.facts + s4.pc + inst + [0 <= i_, i_ < n, passes(i_), res.dom[c_]],
+                     And(marr[i_] != 0, 0 <= CNT(marr, i_), CNT(marr, i_) < CNT(marr, n), masked.carr[c_][CNT(marr, i_)] == res.carr[c_][i_]))
+            ctx.post('inc.step.a_row_whose_cell_fails_the_condition_is_not_counted', hy + ex_rc2.facts + s4.pc + inst + [0 <= i_, i_ < n, Not(passes(i_))], marr[i_] == 0)
         if nnext == 0:
             raise OutOfSubset('inc filter step has no normal path')
         # the tail: an empty result is rebuilt with all of self's columns
@@ -194,6 +244,8 @@ def build(ctx):
                  kind='syntactic')
         ctx.trust('inc.tail: the rebuilt empty table `type(self)([], self.keys())` is checked syntactically here and behaviourally by the bounded stand-in')
     ctx.guarded('inc', inc_section)
+    # the callee contract used above (MASK), proved on the real body of dictable.__getitem__ with the laws of count_true
+    ctx.guarded('__getitem__.mask', lambda: mask_obligations(ctx, m))
 
     # ------------------------------------------------------------------ and_ and exc
     def exc_section():
@@ -230,7 +282,7 @@ def build(ctx):
         ctx.post('exc.mask_is_the_negated_conjunction_row_by_row', [], BoolVal(ok), kind='syntactic')
         ctx.record_function(m, 'dictable.exc', fexc, set(), how='syntactic check of the mask expression; and_ and _row_check symbolically executed',
                             excluded=['callable / dict positional filters, copy prelude, empty-result tail: bounded only'])
-        ctx.trust('exc: that the mask expression is `[not include(row) for row in res]` with include = and_(filters) is checked on the AST text; its meaning comes from and_ (proved) and MASK (assumed)')
+        ctx.trust('exc: that the mask expression is `[not include(row) for row in res]` with include = and_(filters) is checked on the AST text; its meaning comes from and_ (proved) and MASK (proved: __getitem__.mask.*)')
     ctx.guarded('exc', exc_section)
 
     ctx.cover('conditions_distinguishable', [cond != NONEV, NANP(cond), Not(PATP(cond)), cell != NONEV])
